@@ -129,12 +129,20 @@ class TyEnv:
         self.aliases = {}
         self.abstract = set()
         self.classes = set()
+        self.resolver = None       # class name -> canonical key (set by the engine)
 
     def parse(self, text):
         if isinstance(text, Ty):
             return text
         node = ast.parse(text.strip(), mode='eval').body
         return self._conv(node)
+
+    def _cls(self, nm):
+        if self.resolver is not None:
+            k = self.resolver(nm)
+            if k is not None:
+                return k
+        return nm
 
     def _conv(self, n):
         if isinstance(n, ast.Name):
@@ -146,11 +154,11 @@ class TyEnv:
                 return base[nm]
             if nm in self.abstract:
                 return Abs(nm)
-            return Obj(nm)
+            return Obj(self._cls(nm))
         if isinstance(n, ast.Constant) and n.value is None:
             return NONE
-        if isinstance(n, ast.Attribute):
-            return Obj(n.attr)
+        if isinstance(n, ast.Attribute) and isinstance(n.value, ast.Name):
+            return Obj(self._cls(n.value.id + '.' + n.attr))
         if isinstance(n, ast.Subscript):
             head = n.value.id
             sl = n.slice
